@@ -122,6 +122,23 @@ def run(ctx, spec):
             PB = rm.cneg(F, PA)
         PC = curve_point()
         A, B, C = arb(PA, ra), arb(PB, rb), arb(PC, rng.choice(gen.REPS))
+        if rel == 'same-y' and rng.random() < 0.4:
+            # both operands non-normalised with scales chosen so that the cross-multiplied y-coordinates s1 = Y_A*zB^3 and s2 = Y_B*zA^3
+            # (both y*zA^3*zB^3 here: r = s2 - s1 = 0 with h != 0) take a chosen small value c, i.e. s1 + s2 in {+-1, +-2, +-4}
+            inv2 = (q + 1) // 2
+            for c in rng.sample([inv2, q - inv2, 1, q - 1, 2, q - 2], 6):
+                cy = F.mul(c if which == 1 else (c, 0), F.inv(PA[1]))
+                z = rm.fq_cuberoot(cy) if which == 1 else rm.f2_cuberoot(cy)
+                if z is None:
+                    continue
+                w = rng.choice([1, BETA, BETA * BETA % q])
+                za = gen.lam_for(rng, which)
+                zb = F.mul(z if which == 1 else z, F.inv(za))
+                zb = zb * w % q if which == 1 else rm.f2scale(zb, w)
+                A = pr.let(g + '.lit', rm.jac_lit(F, PA, za))[0]
+                B = pr.let(g + '.lit', rm.jac_lit(F, PB, zb))[0]
+                ctx.count('same-y:cross-multiplied-y-directed')
+                break
     else:
         a, _c = gen.scalar_r(rng)
         a = a or 1
